@@ -119,6 +119,8 @@ int cmd_meta(FILE *job, FILE *out);
 int cmd_chunkreq(FILE *job, FILE *out);
 int cmd_fault(FILE *job, FILE *out);
 int cmd_scan(FILE *job, FILE *out);
+int cmd_update(FILE *job, FILE *out);
+void env_print_trace(FILE *o);
 int cmd_explore(FILE *job, FILE *out);
 
 #endif
